@@ -239,3 +239,35 @@ reg("C06", "exploration",
     "concatenated leaves = input; no spill => root = input and = single-directory encoding; spill <=> single-directory encoding > 16257.",
     require={"any": {"writes_judged": 400, "spilled": 100, "fits_in_root": 100, "steered.16257": 1, "steered.16258": 1,
                      "steered.16384": 1, "bracketed.gzip": 1, "bracketed.brotli": 1, "bracketed.zstd": 1, "async_writes": 100}})
+
+reg("C17", "fault_enumeration",
+    "cases = (archive, writer, crash point k): archives empty/1/small/medium/leaf-spilling x 4 codecs x sync/async writer into a "
+    "fresh recording stream; the N recorded stream operations (each write atomic) are replayed for EVERY k in [0,N] into a fresh "
+    "image which is handed to PMTiles::from_bytes. Distinct by enumeration of (scenario,k); non-trivial = the image changed since "
+    "k-1 (the k-th operation was a write). Oracle: Ok => image byte-identical to the complete archive.",
+    require={"any": {"crash_points_opened": 1000, "torn_images_rejected": 800, "complete_images_accepted": 100,
+                     "scenarios_with_leaf_spill": 8, "async_scenarios": 50}},
+    assumptions=["crash model: a prefix of the recorded write/seek operations took effect, each write call atomically; "
+                 "torn individual writes are outside the property's quantifier"])
+
+reg("C19", "exploration",
+    "cases = offending element x position: a zero-length entry at every index of valid directories of 1-80 entries (sampled indices "
+    "up to 2000 entries) x 4 codecs x serialiser/parser x sync/async; add_tile(id, []) on an existing and an absent id after every "
+    "operation of random edit histories (incl. save+reopen) with full before/after comparison (lookups, listing, count, store report, "
+    "bytes of a later save vs an untouched twin); every non-object JSON kind as metadata x 4 codecs x sync/async open (archives from "
+    "the independent writer); Unknown internal compression on write (empty / non-empty, sync/async), on open, and at directory "
+    "level. Each clause has a positive control. Distinct by fingerprint; all non-trivial.",
+    require={"any": {"serialiser_rejections": 1000, "parser_rejections": 1000, "parser_rejections_async": 1000, "empty_adds_refused": 1000,
+                     "saves_equal_to_untouched_twin": 50, "non_object_metadata_refused": 200, "non_object_metadata_refused_async": 200,
+                     "unknown_compression_refused_on_write": 16, "unknown_compression_refused_on_open": 32}})
+
+reg("C20", "exploration",
+    "cases = archives with non-overlapping sections: library-written (C01 classes) and foreign layouts (permuted sections, sentinel "
+    "gaps, tile data before directories/metadata, depth 1-3), 4 codecs, sync/async (with Pending) readers, full and range-filtered "
+    "opens; every tile id (<= 500 tiles) or 500 sampled ids looked up, plus one absent id. Distinct by fingerprint of the archive "
+    "bytes; non-trivial = >= 2 tiles. Oracle: interval arithmetic over the recorded read operations (bytes actually returned) "
+    "against the sections declared by the independently parsed header: open reads only header/metadata/root/leaf bytes; a lookup "
+    "reads exactly [tile offset, +length).",
+    require={"any": {"opens_within_sections": 300, "lookups_exact": 10000, "foreign_archives": 100, "library_written_archives": 100,
+                     "archives_with_leaves": 50, "partial_opens": 50, "async_opens": 50,
+                     "layouts_with_tile_data_before_a_directory_or_metadata": 20}})
